@@ -51,6 +51,7 @@ Eval(x) ==
                     (k <= Len(x.fed)) => (Good(x.script[k]) <=> \E f \in Seq2Set(x.fed[k]) : IsOwn(x, f))
       (* the reply that must come back when the outcome is an own reply: the first own frame of the first good attempt *)
       total == SumSeq([k \in 1..Len(x.reads) |-> x.reads[k].got])
+      asked == SumSeq([k \in 1..Len(x.reads) |-> x.reads[k].asked])
   IN  (IF ~ghostOK THEN {"GhostScript"} ELSE {})
       \cup (IF x.connfail = 0 /\ ~frameOK THEN {"RequestFrame"} ELSE {})
       \cup (IF ~SendBound(Cfg, obs) THEN {"SendBound"} ELSE {})
@@ -59,8 +60,9 @@ Eval(x) ==
       \cup (IF x.connfail = 0 /\ ghostOK /\ ~Honoured(Cfg, x.script, obs) THEN {"Honoured"} ELSE {})
       \cup (IF ghostOK /\ ~NoInvention(Cfg, x.script, obs) THEN {"NoInvention"} ELSE {})
       \cup (IF x.exact = 1 /\ obs.result = "reply" /\ Len(x.fed) >= 1 /\ Len(x.fed[1]) = 1
-               /\ total # Len(Build(T.kind, x.fed[1][1].tid, 0, x.fed[1][1].uid, x.fed[1][1].pdu))
-            THEN {"ReadsExactlyFrame"} ELSE {})
+               /\ (total # Len(Build(T.kind, x.fed[1][1].tid, 0, x.fed[1][1].uid, x.fed[1][1].pdu))
+                   \/ asked # Len(Build(T.kind, x.fed[1][1].tid, 0, x.fed[1][1].uid, x.fed[1][1].pdu)))
+            THEN {"ReadsExactlyFrame"} ELSE {})     \* neither stops short nor asks for bytes that never come
 
 Verdict(status, step, clauses, detail) ==
   PrintT("VERDICT " \o ToJson([id |-> T.id, status |-> status, step |-> step, clauses |-> clauses, detail |-> detail]))
